@@ -203,6 +203,9 @@ def known_variants(frag: Fragment) -> dict[str, str]:
 
 
 def translate(repo: Path):
+    dup = [n for n in {f.coq_name for f in FRAGMENTS} if sum(1 for f in FRAGMENTS if f.coq_name == n) > 1]
+    if dup:
+        raise RuntimeError(f"two fragments emit the same Coq name: {dup}")
     values, unrecognised, details = {}, [], {}
     lines = ["(* GENERATED by tools/translate.py from the current working tree of the repository. Do not edit. *)",
              *TABLE_IMPORTS, ""]
